@@ -73,8 +73,9 @@ def events_of_block(P, f, bi, groups):
     if m:
         return [('group', buffer_of(f, args[0], groups), m.group(1))]
     if re.search(r'ParseBuffer(::<.*>)?::error$|Lookahead1(::<.*>)?::error$', gp):
-        msg = [x[1] for x in args if x[0] == 'str']
-        return [('error',)]
+        # which buffer the error is positioned at (an error built from the outer stream after a group was consumed points
+        # behind the group, not at the offending token)
+        return [('error', buffer_of(f, args[0], groups))]
     if re.search(r'ParseBuffer(::<.*>)?::lookahead1$|ParseBuffer(::<.*>)?::fork$|ParseBuffer(::<.*>)?::(call|step|cursor)$', gp):
         which = gp.split('::')[-1]
         return [] if which == 'lookahead1' else [(which, buffer_of(f, args[0], groups))]
@@ -500,7 +501,7 @@ def run(ctx):
         missing = [p for p in b if p not in a]
         extra = [p for p in a if p not in b]
         ok = not missing and not extra
-        ctx.ob(['C18'], 'R-GRAM', 'production|%s' % short(name), ok,
+        ctx.ob(['C18', 'C12'] if any('error' in p_ for p_ in missing + extra) else ['C18'], 'R-GRAM', 'production|%s' % short(name), ok,
                ('%d token/constructor paths equal the reference grammar' % len(a)) if ok else
                'the concrete syntax or the AST construction of this production changed: %d paths no longer present (e.g. %s), %d new (e.g. %s)' % (
                    len(missing), (missing[0][:260] if missing else '-'), len(extra), (extra[0][:260] if extra else '-')), where)
